@@ -250,7 +250,7 @@ def discharge(tasks, timeout_ms=60000, seed=0, cvc5_fallback=True, cvc5_recheck=
         if expect[oid] != "unsat":
             return min(timeout_ms, 3000)   # reachability covers are sanity checks: unknown is not a failure (phase 1 only)
         if oid.startswith("canary:"):
-            return min(timeout_ms, 20000)  # a canary only needs one refuted obligation
+            return min(timeout_ms, 60000)  # a canary only needs one refuted obligation (sat queries: seed-dependent run times)
         return timeout_ms
 
     ztasks = [(oid, smt, min(quick_ms, budget(oid)), seed) for oid, smt, exp in tasks]
